@@ -1153,7 +1153,7 @@ class ASTWithTable(ASTBase):
 
     def source(self, sql_type: SQLType = SQLType.DEFAULT) -> str:
         """返回语法节点的 SQL 源码"""
-        return f"{self.name}({self.statement.source(sql_type)})"
+        return f"{self.name} AS ({self.statement.source(sql_type)})"
 
 
 @dataclasses.dataclass(slots=True, frozen=True, eq=True)
